@@ -964,6 +964,15 @@ class state_machine_base : public FrontEnd
             deferred_event<Event>{self(), event, seq_cnt}));
     }
 
+    // Resets m_event_processing when an entry is left, also if an entry
+    // behaviour throws (the state machine would otherwise store every
+    // later event forever).
+    struct event_processing_guard
+    {
+        bool& flag;
+        ~event_processing_guard() { flag = false; }
+    };
+
     template <class Event, class Fsm>
     void preprocess_entry(Event const& event, Fsm& fsm)
     {
@@ -1011,6 +1020,7 @@ class state_machine_base : public FrontEnd
     template <class Event, class Fsm>
     void on_entry(Event const& event, Fsm& fsm)
     {
+        event_processing_guard guard{m_event_processing};
         preprocess_entry(event, fsm);
 
         state_entry_visitor<Event> visitor{self(), event};
@@ -1022,6 +1032,7 @@ class state_machine_base : public FrontEnd
     template <class TargetStates, class Event, class Fsm>
     void on_explicit_entry(Event const& event, Fsm& fsm)
     {
+        event_processing_guard guard{m_event_processing};
         preprocess_entry(event, fsm);
 
         using state_identities =
